@@ -150,3 +150,29 @@ def make_dask(V, chunks):
     import dask.array as da
 
     return da.from_array(np.asarray(V), chunks=chunks)
+
+
+def blockwise_layout_ok(codes, chunks):
+    """Documented precondition of an explicit method='blockwise' on 1-D labels: every group lies inside one
+    block AFTER the automatic rechunk (the public flox.rechunk_for_blockwise, which groupby_reduce applies to
+    the factorized codes, -1 = missing).  Returns (ok, chunks_after_rechunk)."""
+    import dask.array as da
+    import flox
+
+    codes = np.asarray(codes)
+    n = codes.shape[-1]
+    dummy = da.zeros((n,), chunks=(tuple(chunks),))
+    try:
+        new = flox.rechunk_for_blockwise(dummy, -1, codes).chunks[-1]
+    except Exception:
+        return False, tuple(chunks)
+    b = [0]
+    for c in new:
+        b.append(b[-1] + c)
+    blocks = {}
+    for i, lab in enumerate(codes.tolist()):
+        if lab < 0:
+            continue
+        blk = max(j for j in range(len(new)) if b[j] <= i)
+        blocks.setdefault(lab, set()).add(blk)
+    return all(len(v) == 1 for v in blocks.values()), tuple(int(c) for c in new)
